@@ -27,7 +27,117 @@ INVENTORY = os.path.join(HERE, "tables", "baseline_fns.json")
 def load_inventory():
     if not os.path.exists(INVENTORY):
         return None
-    return set(json.load(open(INVENTORY)))
+    j = json.load(open(INVENTORY))
+    if isinstance(j, list):
+        return {"fns": {k: {} for k in j}, "adts": {}}
+    return j
+
+
+def fn_sig(f):
+    """type signature of a function: kind, parameter types, return type, trait item"""
+    return "%s|%s|%s->%s" % (f.kind, f.j.get("trait_item") or "", ",".join(f.ty(f.locals[i]["ty"])["s"] for i in range(1, f.arg_count + 1)),
+                             f.ty(f.locals[0]["ty"])["s"])
+
+
+def fn_print(prog, f):
+    """body fingerprint that survives renames: external callees (in order of first use), number of local calls, string constants"""
+    import hashlib
+    body = prog.body_of(f) if hasattr(prog, "body_of") else f
+    ext, nloc = [], 0
+    for c in body.calls:
+        if c.local_key() and c.local_key() in prog.fns:
+            nloc += 1
+        else:
+            ext.append(c.path or c.name or "?")
+    return hashlib.sha1(("|".join(ext) + "#%d" % nloc).encode()).hexdigest()[:16]
+
+
+def normalise_renames(prog, Fn, inv):
+    """A function of the reference inventory that no longer exists, while exactly one new function with the same signature exists
+    in the same file, was renamed: the new one (and its closures) is given the old path, in every def path and callee path of the
+    dump.  Same for a struct field whose name changed while its position and type did not.  Returns the list of renames."""
+    renames = []
+    fns = inv.get("fns", {})
+    cur = {k: f for k, f in prog.fns.items() if f.kind in ("Fn", "AssocFn")}
+    missing = [k for k in fns if k not in cur and fns[k].get("sig")]
+    new = [k for k in cur if k not in fns]
+    pairs = {}
+    for m in missing:
+        crate = m.split("::", 1)[0]
+        c = [n for n in new if n.startswith(crate + "::") and cur[n].file == fns[m].get("file") and fn_sig(cur[n]) == fns[m]["sig"]]
+        rivals = [m2 for m2 in missing if fns[m2].get("file") == fns[m].get("file") and fns[m2]["sig"] == fns[m]["sig"]]
+        if len(c) == 1 and len(rivals) == 1:
+            pairs[c[0]] = m
+        elif len(c) > 1 and fns[m].get("print"):
+            # several same-signature functions were renamed together: tell them apart by their bodies
+            c2 = [n for n in c if fn_print(prog, cur[n]) == fns[m]["print"]]
+            r2 = [m2 for m2 in rivals if fns[m2].get("print") == fns[m]["print"]]
+            if len(c2) == 1 and len(r2) == 1:
+                pairs[c2[0]] = m
+    field_map = {}
+    for crate in ("redproxy_rs", "milu"):
+        used_names = set(fl[0] for a in inv.get("adts", {}).values() for v in a for fl in v[1])
+        for a in prog.items.get(crate, {}).get("adts", []):
+            ref = inv.get("adts", {}).get(crate + "::" + a["path"])
+            if not ref or len(ref) != len(a["variants"]):
+                continue
+            for (vname, rfields), v in zip(ref, a["variants"]):
+                if len(rfields) != len(v["fields"]):
+                    continue
+                for (rname, rty), fl in zip(rfields, v["fields"]):
+                    nty = prog.types[crate][fl["ty"]]["s"]
+                    if fl["name"] != rname and nty == rty and fl["name"] not in used_names:
+                        field_map["f:" + fl["name"]] = "f:" + rname
+                        renames.append(("field %s::%s.%s" % (crate, a["path"], fl["name"]), rname))
+                        fl["name"] = rname
+    if not pairs and not field_map:
+        return renames
+    path_map = {}
+    for n, m in pairs.items():
+        path_map[n.split("::", 1)[1]] = m.split("::", 1)[1]
+        renames.append((n, m))
+    # longest first so that nested paths are rewritten consistently
+    olds = sorted(path_map, key=len, reverse=True)
+
+    def rn(sv):
+        if not isinstance(sv, str):
+            return sv
+        for o in olds:
+            if o in sv:
+                # only whole path segments:  a::b::old  /  a::b::old::{closure#0}
+                sv = re.sub(r"(?<![\w])" + re.escape(o) + r"(?![\w])", path_map[o], sv)
+        return sv
+
+    def walk(x):
+        if isinstance(x, dict):
+            for k in list(x.keys()):
+                v = x[k]
+                if isinstance(v, str):
+                    if k in ("path", "res", "full", "def", "parent", "fn", "s", "trait_item"):
+                        x[k] = rn(v)
+                elif isinstance(v, (dict, list)):
+                    walk(v)
+        elif isinstance(x, list):
+            for i, v in enumerate(x):
+                if isinstance(v, str):
+                    if v in field_map:
+                        x[i] = field_map[v]
+                elif isinstance(v, (dict, list)):
+                    walk(v)
+
+    for crate in ("redproxy_rs", "milu"):
+        raw = prog.raw.get(crate)
+        if raw is None:
+            continue
+        walk(raw["fns"])
+        prog.fns = {k: f for k, f in prog.fns.items() if f.crate != crate}
+        prog.by_crate[crate] = {}
+        for fj in raw["fns"]:
+            f = Fn(prog, crate, fj)
+            prog.fns[f.key] = f
+            prog.by_crate[crate][f.path] = f
+    prog._cg = prog._rcg = prog._impls_of = None
+    return renames
 
 
 def top_key(key):
@@ -202,6 +312,8 @@ def expand(prog, Fn, log=None):
     inv = load_inventory()
     if inv is None:
         return []
+    prog.renamed = normalise_renames(prog, Fn, inv)
+    inv = set(inv["fns"])
     done = []
     for _round in range(4):
         new_tops = sorted(k for k, f in prog.fns.items() if f.kind in ("Fn", "AssocFn") and k not in inv and f.crate in ("redproxy_rs", "milu")
